@@ -4,6 +4,18 @@ NOT_APPLICABLE = {('C%02d' % i): TODO for i in range(1, 21)}
 R_NOTE = ('R-model: floats are mathematical reals, float literals are the decimal rationals written in the source, '
           'transcendental functions are uninterpreted with sound axiom instances; IEEE rounding is outside the claim. ')
 CHECKS = {
+    'C09': {
+        'text': 'Frame conditions by bounded symbolic execution + SMT: 56 call specifications covering every public function of convert, geodesy, '
+                'statistics, survey, transform and the Transformation operators (real source) are executed twice in a row on symbolic arguments '
+                'along every explored path (<= 8/40 paths each, loops unrolled once; two different same-labelled parameter sets, covariance given) '
+                'under a write barrier on all shipped constants, a deep snapshot of every module-level mutable object, tracked arguments, and a '
+                'solver query that the repeated call returns identical terms. Absence of writes plus results depending on arguments only is '
+                'inductive over call sequences and interleavings.',
+        'design_ref': 'DESIGN.md section 7 C09',
+        'note': 'Thread-safety of CPython/numpy internals and file-I/O functions are outside; heavy composite functions run on concrete '
+                'arguments in the quick tier (their callees are explored symbolically on their own); paths beyond the budget are counted.',
+        'technique': 'symbolic execution of the real Python source with write barrier and state snapshots + SMT equality of repeated results',
+    },
     'C20': {
         'text': 'Bounded symbolic execution + SMT: the two Flask handlers of api/app.py (real source) run with a request stub whose numeric '
                 'query fields are symbolic reals (zero and negatives included) and whose angle-type fields range over {absent, dd, dms}^2; '
